@@ -62,8 +62,19 @@ def make_connectors():
     import jax
 
     clock("import_jax", t)
+    class FunctionalAssignNumpyConnector(pq.NumpyConnector):
+        """Test double: NumPy semantics, but `assign` (like JAX's .at[].set and TensorFlow's
+        tensor_scatter_nd_update) returns a fresh array and leaves its argument untouched, so code
+        that drops the returned value or relies on writing through an alias gives a different result."""
+
+        def assign(self, array, index, value):
+            new = np.array(array, copy=True)
+            new[index] = value
+            return new
+
     conns = {
         "np": pq.NumpyConnector(),
+        "npf": FunctionalAssignNumpyConnector(),
         "tf": pq.TensorflowConnector(),
         "tff": pq.TensorflowConnector(decorate_with=tf.function),
         "jax": pq.JaxConnector(),
@@ -367,55 +378,73 @@ def config_of(prog, validate=None):
     return pq.Config(**kw)
 
 
-def observe(prog, state, as_arrays=False):
-    """the observables of properties.jsonl:observe_at, per simulator"""
+TRACER_ERRORS = ("ConcretizationTypeError", "TracerBoolConversionError", "TracerArrayConversionError",
+                 "TracerIntegerConversionError", "NonConcreteBooleanIndexError", "UnexpectedTracerError")
+
+
+def observe(prog, state, jit=False, angles=None, skipped=None):
+    """the observables of properties.jsonl:observe_at (and the expectation values next to them),
+    per simulator.  Under jax.jit an observable whose Python code cannot be traced is skipped
+    (recorded in `skipped`); everything else is returned."""
     sim = prog["sim"]
     obs = {}
 
-    def put(name, f):
+    def put(name, f, in_jit=True):
+        if jit and not in_jit:
+            return
         try:
             obs[name] = f()
         except Exception as e:  # noqa: BLE001
-            if as_arrays:
+            if jit and type(e).__name__ in TRACER_ERRORS:
+                if skipped is not None:
+                    skipped[name] = type(e).__name__
+                return
+            if jit:
                 raise
             obs[name] = exc(e)
 
     occs = [tuple(o) for o in prog.get("occupations", [])]
+    if angles is None:
+        angles = prog.get("angles")
     if sim == "pure_fock":
         put("state_vector", lambda: state.state_vector)
         put("fock_probabilities", lambda: state.fock_probabilities)
         put("density_matrix", lambda: state.density_matrix)
-        if not as_arrays:
-            put("norm", lambda: state.norm)
-            put("mean_photon_number", lambda: state.mean_photon_number())
-            for o in occs:
-                put("pdp%s" % (list(o),), lambda o=o: state.get_particle_detection_probability(np.array(o)))
+        put("norm", lambda: state.norm, in_jit=False)
+        put("mean_photon_number", lambda: state.mean_photon_number(), in_jit=False)
+        put("mean_position", lambda: state.mean_position(0), in_jit=False)
+        for o in occs:
+            put("pdp%s" % (list(o),), lambda o=o: state.get_particle_detection_probability(np.array(o)), in_jit=False)
     elif sim == "gaussian":
         put("xpxp_mean_vector", lambda: state.xpxp_mean_vector)
         put("xpxp_covariance_matrix", lambda: state.xpxp_covariance_matrix)
-        if not as_arrays:
-            put("fock_probabilities", lambda: state.fock_probabilities)
-            put("density_matrix", lambda: state.density_matrix)
-            for o in occs:
-                put("pdp%s" % (list(o),), lambda o=o: state.get_particle_detection_probability(np.array(o)))
+        put("complex_covariance", lambda: state.complex_covariance)
+        put("mean_photon_number", lambda: state.mean_photon_number())
+        put("parity", lambda: state.get_parity_operator_expectation_value())
+        if angles is not None:
+            put("phaseshifter_expectation", lambda: state.get_phaseshifter_expectation_value(angles))
+        put("fock_probabilities", lambda: state.fock_probabilities, in_jit=False)
+        put("density_matrix", lambda: state.density_matrix, in_jit=False)
+        for o in occs:
+            put("pdp%s" % (list(o),), lambda o=o: state.get_particle_detection_probability(np.array(o)), in_jit=False)
+            if max(o) <= 1:
+                put("threshold%s" % (list(o),), lambda o=o: state.get_threshold_detection_probability(np.array(o)),
+                    in_jit=False)
     elif sim == "passive":
         put("interferometer", lambda: state.interferometer)
-        if not as_arrays:
-            put("fock_probabilities", lambda: state.fock_probabilities)
-            for o in occs:
-                put("pdp%s" % (list(o),), lambda o=o: state.get_particle_detection_probability(np.array(o)))
+        put("fock_probabilities", lambda: state.fock_probabilities, in_jit=False)
+        for o in occs:
+            put("pdp%s" % (list(o),), lambda o=o: state.get_particle_detection_probability(np.array(o)), in_jit=False)
     elif sim == "fermionic_gaussian":
         put("covariance_matrix", lambda: state.covariance_matrix)
         put("correlation_matrix", lambda: state.correlation_matrix)
-        if not as_arrays:
-            put("mean_particle_numbers", lambda: state.mean_particle_numbers(tuple(range(prog["d"]))))
-            for o in occs:
-                put("pdp%s" % (list(o),), lambda o=o: state.get_particle_detection_probability(np.array(o)))
+        put("mean_particle_numbers", lambda: state.mean_particle_numbers(tuple(range(prog["d"]))), in_jit=False)
+        for o in occs:
+            put("pdp%s" % (list(o),), lambda o=o: state.get_particle_detection_probability(np.array(o)), in_jit=False)
     elif sim == "fermionic_fock":
         put("state_vector", lambda: state.state_vector)
         put("fock_probabilities", lambda: state.fock_probabilities)
-        if not as_arrays:
-            put("density_matrix", lambda: state.density_matrix)
+        put("density_matrix", lambda: state.density_matrix, in_jit=False)
     return obs
 
 
@@ -434,43 +463,54 @@ def finish_obs(obs):
 
 def run_program(prog, mode, conns, tf, jax):
     Sim = SIMS[prog["sim"]]()
-    if mode in ("np", "tf", "tff", "jax"):
+    if mode in ("np", "npf", "tf", "tff", "jax"):
         sim = Sim(d=prog["d"], config=config_of(prog), connector=conns[mode])
         state = sim.execute(make_program(prog)).state
-        return finish_obs(observe(prog, state))
+        obs = observe(prog, state)
+        # history: the same state object is the initial state of further programs, and is read again
+        for n, instrs in enumerate(prog.get("followups", [])):
+            follow = dict(prog, instructions=instrs)
+            st = sim.execute(make_program(follow), initial_state=state).state
+            for k, v in observe(follow, st).items():
+                obs["f%d:%s" % (n, k)] = v
+        if prog.get("followups"):
+            for k, v in observe(prog, state).items():
+                obs["after:%s" % k] = v
+        return finish_obs(obs)
     if mode == "jaxjit":
-        # the whole simulation under jax.jit, the traced parameters become tracers
+        # the whole simulation under jax.jit; the traced gate parameters and the angles of the
+        # phaseshifter observable are arguments of the compiled function
         traced = prog.get("traced", {})
         keys = [(i, k) for i in sorted(traced) for k in sorted(traced[i])]
         vals = [float(traced[i][k]) for i, k in keys]
+        angles = prog.get("angles")
+        names = []
+        skipped = {}
 
-        def f(*args):
+        def g(angles_, *args):
             tr = {}
             for (i, k), a in zip(keys, args):
                 tr.setdefault(i, {})[k] = a
             sim = Sim(d=prog["d"], config=config_of(prog, validate=False), connector=pq.JaxConnector())
             state = sim.execute(make_program(prog, tr)).state
-            o = observe(prog, state, as_arrays=True)
-            return tuple(o[k] for k in sorted(o)), sorted(o)
+            o = observe(prog, state, jit=True, angles=angles_, skipped=skipped)
+            names[:] = sorted(o)
+            return tuple(o[k] for k in names)
 
-        names = []
-
-        def g(*args):
-            vals_, n = f(*args)
-            names[:] = n
-            return vals_
-
-        res = jax.jit(g)(*vals)
-        return finish_obs(dict(zip(names, res)))
+        res = jax.jit(g)(None if angles is None else np.array(angles, dtype=float), *vals)
+        out = finish_obs(dict(zip(names, res)))
+        if skipped:
+            out["_skipped_under_jit"] = skipped
+        return out
     raise KeyError(mode)
 
 
 MODES = {
-    "pure_fock": ["np", "tf", "tff", "jax", "jaxjit"],
-    "gaussian": ["np", "jax", "jaxjit"],
-    "passive": ["np", "jax", "jaxjit"],
-    "fermionic_gaussian": ["np", "jax", "jaxjit"],
-    "fermionic_fock": ["np", "jax", "jaxjit"],
+    "pure_fock": ["np", "npf", "tf", "tff", "jax", "jaxjit"],
+    "gaussian": ["np", "npf", "jax", "jaxjit"],
+    "passive": ["np", "npf", "jax", "jaxjit"],
+    "fermionic_gaussian": ["np", "npf", "jax", "jaxjit"],
+    "fermionic_fock": ["np", "npf", "jax", "jaxjit"],
 }
 
 
